@@ -33,7 +33,7 @@ def x4_grid(quick):
 def main():
     c = Check('C15')
     c.prove()
-    build_driver()
+    build_driver(['rr'])          # private driver with the rr fragment only (Extract/lists/rr.list, registry.d/rr.*)
     build_harness(['owrun'])
     rng = c.rng
     quick = c.tier == 'quick'
@@ -102,11 +102,11 @@ def main():
         c.count(('odd', ps, st, rain, pet), nontrivial=False)
         if ri[0] != 'OK':
             odd_panics += 1
-        diff = kresults_agree(ri, rm, rtol=1e-9, atol=1e-12)
+        diff = kresults_agree(ri, rm, rtol=1e-9, atol=abs_tol(ps, st, rain))
         if diff and ri[0] == 'OK' and rm[0] == 'OK':
             ps2, rain2, pet2 = perturb_case('GR4J', ps, rain, pet)
             rp = parse_kresult(run_model([kcase('GR4J', ps2, st, [rain2, pet2])])[0])
-            diff = conditioned_agree(ri, rm, rp, 1e-9, 1e-12)
+            diff = conditioned_agree(ri, rm, rp, 1e-9, abs_tol(ps, st, rain))
         if diff:
             c.corr_broken.append({'case': ['malformed', ps, st[:4], len(st), len(rain)], 'diff': diff, 'line': line[:4000]})
 
@@ -115,17 +115,22 @@ def main():
     model = run_model(lines)
     classes = {}
     illcond = [0, 0]
+    corr_retry = []
     for i, (cs, li, lm) in enumerate(zip(cases, impl, model)):
         ri, rm = parse_kresult(li), parse_kresult(lm)
         x1, x2, x3, x4 = cs['ps']
         n1, n2 = int(math.ceil(x4)), int(math.ceil(2 * x4))
         classes[(n1, n2)] = classes.get((n1, n2), 0) + 1
         c.count((cs['ps'], cs['st0'], cs['rain'], cs['pet']), nontrivial=sum(cs['rain']) > 0 or sum(cs['st0'][4:]) > 0)
-        diff = kresults_agree(ri, rm, rtol=1e-9, atol=1e-12)
+        atol_c = abs_tol(cs['ps'], cs['st0'], cs['rain'])
+        diff = kresults_agree(ri, rm, rtol=1e-9, atol=atol_c)
         if diff:
-            ps2, rain2, pet2 = perturb_case('GR4J', cs['ps'], cs['rain'], cs['pet'])
-            rp = parse_kresult(run_model([kcase('GR4J', ps2, cs['st0'], [rain2, pet2])])[0])
-            d2 = conditioned_agree(ri, rm, rp, 1e-9, 1e-12)
+            d2 = diff
+            if len(corr_retry) < 200:         # measured-sensitivity second chance (see rrlib), one model run each
+                corr_retry.append(i)
+                ps2, rain2, pet2 = perturb_case('GR4J', cs['ps'], cs['rain'], cs['pet'])
+                rp = parse_kresult(run_model([kcase('GR4J', ps2, cs['st0'], [rain2, pet2])])[0])
+                d2 = conditioned_agree(ri, rm, rp, 1e-9, atol_c)
             if d2:
                 c.corr_broken.append({'case': [cs['ps'], cs['regime'], len(cs['rain'])], 'diff': diff, 'conditioned': d2, 'line': lines[i][:4000]})
             else:
@@ -145,8 +150,9 @@ def main():
         ref_all = ref_q + [ref_s, ref_r] + ref_q1 + ref_q9
         bad = None
         sens = None
+        atol_o = max(ATOL, 100.0 * atol_c)
         for k, ((nm, a), b) in enumerate(zip(got_all, ref_all)):
-            if feq(a, b, RTOL, ATOL):
+            if feq(a, b, RTOL, atol_o):
                 continue
             if sens is None:          # measured sensitivity of the published equations (see rrlib.perturb_case)
                 ps2, rain2, pet2 = perturb_case('GR4J', cs['ps'], cs['rain'], cs['pet'])
@@ -154,7 +160,7 @@ def main():
                 sens = [abs(u - v) for u, v in zip(ref_all, pq + [ps_, pr_] + pq1 + pq9)]
                 for j in range(1, len(sens)):     # running maximum: an expanding map keeps the separation it has reached
                     sens[j] = max(sens[j], sens[j - 1])
-            if math.isfinite(a) and abs(a - b) <= ATOL + RTOL * max(abs(a), abs(b)) + KCOND * sens[k]:
+            if math.isfinite(a) and abs(a - b) <= atol_o + RTOL * max(abs(a), abs(b)) + KCOND * sens[k]:
                 continue
             bad = '%s: implementation %r, published GR4J %r' % (nm, a, b)
             break
@@ -171,9 +177,9 @@ def main():
     c.cov['rule'] = ('x4 swept over a grid of step %s plus both sides (0, +-1e-12, +-1e-9, +-1e-4, +-0.01) of every integer and half-integer in [0.5,4] '
                      '(every unit-hydrograph length class (n1,n2)); x1,x2,x3 from the documented ranges (interior, log-uniform, end points); '
                      'forcing from the five regimes, T in {1,2,7,40,120,400}; initial stores either the model\'s own InitialiseStates or arbitrary '
-                     'S in [0,x1], R in [0,x3], UH stores in [0,30]; each case run through sim.Catalog, through the extracted Coq kernel (rtol 1e-9) '
+                     'S in [0,x1], R in [0,x3], UH stores in [0,30]; each case run through sim.Catalog, through the extracted Coq kernel (rtol 1e-9, atol 1e-12*scale, scale = 1 + largest parameter/initial store/daily rain) '
                      'and through an independent float64 implementation of the published equations (S-curve functions, convolution routing) '
-                     'compared at rtol 1e-9 / atol 1e-10 mm on every runoff value and every final store; plus a malformed stream (state-vector lengths not matching ceil(x4), short/over-long vectors, n1=0, x4 outside the range) compared model-vs-code only; non-trivial = some rain or non-empty UH stores; distinct = distinct (parameters, initial states, series)'
+                     'compared at rtol 1e-9 / atol max(1e-10 mm, 1e-10*scale) on every runoff value and every final store; plus a malformed stream (state-vector lengths not matching ceil(x4), short/over-long vectors, n1=0, x4 outside the range) compared model-vs-code only; non-trivial = some rain or non-empty UH stores; distinct = distinct (parameters, initial states, series)'
                      % ('0.125' if quick else '0.03125'))
     c.finish(extra_cov={'uh_length_classes': {'%d/%d' % k: v for k, v in sorted(classes.items())}, 'x4_values': len(x4_grid(quick)), 'malformed_cases': len(odd), 'malformed_panics_impl': odd_panics, 'ill_conditioned_cases_accepted': {'model_vs_code': illcond[0], 'code_vs_published': illcond[1]},
                         'exhaustive': False},
